@@ -560,7 +560,9 @@ pub fn strftime(ts: time::OffsetDateTime, fmt: &str) -> Result<String, DateForma
                 output.push(lit);
             }
             Formats::Unknown => {
-                output.push_str(&fmt[fmt_pos..=cursor]);
+                // `cursor` is the byte index of the last consumed character, which may be multi-byte
+                let end = cursor + fmt[cursor..].chars().next().map_or(1, char::len_utf8);
+                output.push_str(&fmt[fmt_pos..end]);
                 continue;
             }
         };
